@@ -60,6 +60,14 @@ def cases(draw, thorough=False, procs=False):
                 while t['n'] in seen:
                     t['n'] += '_'
                 seen.add(t['n'])
+    # subtests described by values that contain dots, brackets, blanks; test objects counting for 0 or several test cases
+    for node, t in gen.iter_tests(spec):
+        if t['k'] == 'subtests' and draw(st.booleans()):
+            t['sub'] = [[sub[0], {draw(st.sampled_from(['value', 'host'])):
+                                  draw(st.sampled_from([1.5, 2.5, 'a.b', 'see README.txt', '(x)', 'x y', '', 0]))}]
+                        for sub in t['sub']]
+        if draw(st.integers(0, 7)) == 0:
+            t['count'] = draw(st.sampled_from([0, 2, 3]))
     # doctests
     ndoc = draw(st.integers(0, 2))
     for k in range(ndoc):
@@ -178,9 +186,12 @@ def oracle(spec, opts, run, folder):
     # what must be there
     expect = Counter()
     subfails = {}
+    subdescs = {}    # test id -> the descriptions unittest gives its failing subtests ("(i=0, value=1.5)")
     for e in run.trace:
         if e['ev'] == 'T' and e['ph'] == 'subfail':
             subfails.setdefault(e['id'], []).append(e['kind'])
+            if e.get('sid', '').startswith(e['id'] + ' '):
+                subdescs.setdefault(e['id'], set()).add(e['sid'][len(e['id']) + 1:])
     for rec in model.resolve(spec):
         t = rec['t']
         if rec.get('doctest'):
@@ -200,7 +211,7 @@ def oracle(spec, opts, run, folder):
         if k == 'subtests':
             kinds = subfails.get(rec['id'], [])
             for kk in kinds:
-                expect[(cls, t['n'], 'failure' if kk == 'fail' else 'error', 'sub')] += 1
+                expect[(cls, t['n'], 'failure' if kk == 'fail' else 'error', rec['id'])] += 1
             if not kinds:
                 expect[(cls, t['n'], 'pass')] += repeat
             continue
@@ -224,8 +235,11 @@ def oracle(spec, opts, run, folder):
             for key in [key for key in remaining if key[2] == kind and key[1] == name]:
                 del remaining[key]
         elif is_sub:
+            # a failing subtest is filed under its test's class, named as the test or as the test plus the subtest's
+            # own description
+            descs = subdescs.get(key4[3]) or ()
             keys = [key for key in remaining if key[0] == cls and key[2] == kind and
-                    name_matches(name + ' ', key[1], prefix=True)]
+                    (name_matches(name, key[1]) or any(name_matches(name + ' ' + d, key[1]) for d in descs))]
             got = sum(remaining[key] for key in keys)
             for key in keys:
                 del remaining[key]
@@ -326,8 +340,8 @@ class C17(Prop):
             'messages = concatenations of hostile pieces and arbitrary text, names = Unicode identifiers (thorough: '
             'arbitrary attribute names). Non-trivial = a failing test message or a test name contains a character '
             'outside XML 1.0 Char, or the world has failing subtests / an unexpected success.')
-    assumptions = ('a subtest counts as reported under its own test when classname is the test\'s class and the name '
-                   'starts with "<method> "',)
+    assumptions = ('a failing subtest counts as reported under its own test when classname is the test\'s class and the '
+                   'name is the method name, alone or followed by the description unittest gives that subtest',)
     parts = (InProc(), Procs())
 
 
